@@ -119,6 +119,11 @@ def record(payload):
         calls.append(("disc", None, np.array(weights, dtype=float), np.array(r)))
         return r
     S.sample_discrete_maps, S.sample_discrete = w_maps, w_disc
+    import signal
+
+    def _alarm(signum, frame):
+        raise TimeoutError("sampler call did not return within 60 s")
+    signal.signal(signal.SIGALRM, _alarm)
     try:
         for k, inst in enumerate(payload["insts"]):
             seed = payload["seed"] if payload.get("exact_seed") else rng0.randrange(10 ** 9)
@@ -130,12 +135,17 @@ def record(payload):
             bms = BayesianModelSampling(model)
             topo = list(bms.topological_order)
 
+            def snap_model(m):
+                return (sorted(map(repr, m.nodes())), sorted(map(repr, m.edges())), sorted(map(repr, m.latents)),
+                        sorted((repr(c.variables), np.asarray(c.values).round(12).tobytes()) for c in m.cpds))
+            snap0 = snap_model(model)
+
             def rows_of(df):
                 rows = []
                 for _, r in df.iterrows():
                     row = {}
                     for c in df.columns:
-                        if c == "_weight":
+                        if c == "_weight" or c not in conc.inv:
                             continue
                         v = conc.inv[c]
                         val = r[c]
@@ -170,12 +180,13 @@ def record(payload):
                     events.append({"ev": "kernels", "method": method, "node": v, "pairs": list(pairs.values())})
                     events.append({"ev": "freq", "method": method, "node": v, "counts": list(counts.values())})
 
-            def frame_event(method, df, size, incl, evid, weights=None):
+            def frame_event(method, df, size, incl, evid, weights=None, clamped=()):
                 events.append({"ev": "frame", "method": method, "size": size, "include_latents": incl,
-                               "columns": [conc.inv[c] for c in df.columns if c != "_weight"], "rows": rows_of(df), "evid": evid,
-                               "weights": weights or []})
+                               "columns": [conc.inv[c] for c in df.columns if c != "_weight" and c in conc.inv], "rows": rows_of(df), "evid": evid,
+                               "weights": weights or [], "clamped": list(clamped)})
             s1 = rng.randrange(10 ** 6)
             calls.clear()
+            signal.alarm(60)
             try:
                 df = bms.forward_sample(size=n, include_latents=True, seed=s1, show_progress=False, n_jobs=1)
                 kernel_events("forward", df, topo)
@@ -202,6 +213,35 @@ def record(payload):
                 kernel_events("lw", dfl, [t for t in topo if conc.inv[t] not in evid])
                 frame_event("lw", dfl, n // 2, True, evid, [_rat(w) for w in dfl["_weight"]])
                 calls.clear()
+                # simulate(): do-intervention (+ evidence taken from an interventional sample, + virtual evidence)
+                # (simulate() ends with DataFrame.astype("category"); pandas cannot hash columns mixing tuple and scalar labels)
+                if len(inst["nodes"]) >= 2 and not any(isinstance(x, tuple) for m in conc.sn.values() for x in m.values()):
+                    from ..bnutil import make_virtual, _vw
+                    xdo = rng.choice(inst["nodes"])
+                    # the intervened state is taken from a forward-sampled row: simulate() realises do() by rejection
+                    # sampling on the intervened node's marginalised CPD and never returns for a state of probability
+                    # zero there (observation recorded in DESIGN.md section 13; not generated)
+                    dod = {xdo: row0[xdo]}
+                    dkw = {conc.vn[v]: conc.sn[v][s] for v, s in dod.items()}
+                    ds = model.simulate(n_samples=30, do=dkw, include_latents=True, seed=s1 + 5, show_progress=False)
+                    frame_event("simulate", ds, 30, True, dod, clamped=[xdo])
+                    r1 = rows_of(ds)[rng.randrange(30)]
+                    ev2 = {v: r1[v] for v in rng.sample([n2 for n2 in inst["nodes"] if n2 != xdo], 1)}
+                    ds2 = model.simulate(n_samples=25, do=dkw, evidence={conc.vn[v]: conc.sn[v][s] for v, s in ev2.items()},
+                                         include_latents=False, seed=s1 + 6, show_progress=False)
+                    frame_event("simulate", ds2, 25, False, {**dod, **{v: s for v, s in ev2.items() if v not in inst["latents"]}}, clamped=[xdo])
+                    vv = rng.choice([n2 for n2 in inst["nodes"] if n2 != xdo])
+                    vw = _vw(rng, len(inst["states"][vv]))
+                    vw["w"] = [max(1, x) for x in vw["w"]]          # strictly positive: P(virtual evidence) > 0
+                    ds3 = model.simulate(n_samples=20, virtual_evidence=make_virtual(inst, conc, {vv: vw}),
+                                         include_latents=True, seed=s1 + 7, show_progress=False)
+                    frame_event("simulate", ds3, 20, True, {})
+                    ds4 = model.simulate(n_samples=20, include_latents=True, seed=s1 + 7, show_progress=False)
+                    ds5 = model.simulate(n_samples=20, include_latents=True, seed=s1 + 7, show_progress=False)
+                    events.append({"ev": "repro", "method": "simulate", "same": bool(ds4.equals(ds5))})
+                    if snap_model(model) != snap0:
+                        events.append({"ev": "raised", "method": "simulate", "exc": "model changed by simulate()"})
+                calls.clear()
                 # Gibbs transition kernels (strictly positive tables only: the full conditional must be defined everywhere)
                 if inst["kind"] != "zeros" and len(inst["nodes"]) >= 2:
                     gs = GibbsSampling(model)
@@ -213,7 +253,9 @@ def record(payload):
                             events.append({"ev": "gibbs", "var": v, "others": {o: inst["states"][o][int(s)] for o, s in zip(others, tup)},
                                            "p": [_rat(x) for x in np.array(p, dtype=float)]})
             except Exception as ex:  # noqa
-                events.append({"ev": "raised", "method": "sampler", "exc": repr(ex)[:200]})
+                import traceback
+                events.append({"ev": "raised", "method": "sampler", "exc": repr(ex)[:200], "tb": traceback.format_exc()[-700:]})
+            signal.alarm(0)
             out.append({"tid": payload["tid0"] + k, "seed": seed, "hashseed": hs, "n": n, "inst": inst, "events": events})
     finally:
         S.sample_discrete_maps, S.sample_discrete = orig_maps, orig_disc
